@@ -212,6 +212,8 @@ def o3(W, ob):
              'advance_queue_head does not return NULL_FRAME under expected_frame > input_frame', where(a))
 
 
+from . import helpers
+
 OBLIGATIONS = [
     ('C11.O1', 'what is announced was inserted', 'set_frame_delay / add_local_input write the input ring; every fill reported by InputQueue::set_frame_delay was '
      'inserted first, with the same frame, replicating the newest input; the filled vector is what is returned.', o1),
@@ -222,4 +224,5 @@ OBLIGATIONS = [
     ('C11.O3', 'guards of the API', 'set_input_delay has effects only for a local handle and returns InvalidRequest otherwise; submissions landing on filled frames are '
      'dropped and never announced.', o3),
     ('C11.O4', 'announced frames come from the sync layer (= C03.O4)', 'see C03.O4', c03.o4),
+    ('C11.H', 'helpers the rules above rely on', 'the bodies of the helpers named by this property\'s rules compute what the rules assume (prev_pos, add_input, next_complete); see rules/helpers.py', helpers.bundle('prev_pos', 'add_input', 'next_complete')),
 ]
